@@ -17,6 +17,8 @@ package main
 import (
 	"context"
 	"fmt"
+	"hash/crc32"
+	"strings"
 	"sync/atomic"
 	"time"
 
@@ -25,6 +27,7 @@ import (
 	"verif/internal/harness"
 
 	"github.com/mgtv-tech/redis-GunYu/cmd"
+	"github.com/mgtv-tech/redis-GunYu/config"
 	"github.com/mgtv-tech/redis-GunYu/pkg/redis/checkpoint"
 	"github.com/mgtv-tech/redis-GunYu/pkg/redis/client"
 	"github.com/mgtv-tech/redis-GunYu/syncer"
@@ -71,6 +74,7 @@ func main() {
 	setReplayMode(false, "sync")
 	checkpointMoves(run, nCp)
 	gcCases(run, nGc)
+	gcOverlapsRekey(run, run.N(30, 400))
 	bisyncCases(run, nBi)
 
 	setReplayMode(false, "sync")
@@ -105,6 +109,23 @@ func checkpointMoves(run *harness.Run, n int) {
 }
 
 func oneMove(run *harness.Run, key, kind string, rep int, l *layout, newKey string, transient bool) {
+	if !l.None && len(l.Entries) > 0 && !hasFlag(l, "stale-copy-under-new-name") && crc32.ChecksumIEEE([]byte(key))%4 == 0 {
+		// an earlier rename to the same destination was interrupted after its first write and the
+		// name flapped back: a copy with a smaller offset of the same id waits under the new name
+		dest := ""
+		switch kind {
+		case opRenameFwd:
+			dest = newKey
+		case opRenameBack:
+			// (not for rename+rekey: two ids in one hash — the double returns HGETALL sorted by
+			// field, a small Redis hash in insertion order, and fetchCheckpoint lets the last one win)
+			dest = config.CheckpointKey
+		}
+		if dest != "" && dest != l.Name {
+			l.Entries = append(l.Entries, entry{ID: l.Old, Key: dest, DB: l.LiveDB, Off: l.P - int64(1+crc32.ChecksumIEEE([]byte(key))%800), Mtime: time.Now().UnixNano() - int64(time.Hour), Note: "stale-copy-under-new-name"})
+			l.Flags = append(l.Flags, "stale-copy-under-new-name")
+		}
+	}
 	s0 := l.build()
 	oldCfg := startCfg{ID1: l.Old, ID2: l.Old2}
 	newCfg := oldCfg
@@ -185,6 +206,15 @@ var transientCases int
 
 var sampled = map[string]bool{}
 var sampledMu = make(chan struct{}, 1)
+
+func hasFlag(l *layout, f string) bool {
+	for _, x := range l.Flags {
+		if x == f {
+			return true
+		}
+	}
+	return false
+}
 
 func sampleOnce(run *harness.Run, cc *caseCtx, lg *opLog) {
 	sampledMu <- struct{}{}
@@ -303,6 +333,128 @@ func gcDirect(t *fakeredis.Server, l *layout, cfg startCfg, j *gcJob) error {
 		}
 	}
 	return nil
+}
+
+// gcOverlapsRekey: two maintenance operations interleave.  The GC tick has just asked the source
+// for its replication ids (A) when the source fails over and the running syncer, granted a
+// continuation, re-keys the position from A to B (SetRunId → UpdateCheckpoint); the tick then reads
+// the index and collects.  The position is older than the staleness threshold (replay never
+// refreshes mtime), so all that protects it is what the move wrote.  Afterwards a start with the
+// ids the source reports now (B, A) must find the position, in the same database.
+func gcOverlapsRekey(run *harness.Run, n int) {
+	ctx := context.Background()
+	for i := 0; i < n; i++ {
+		key := fmt.Sprintf("gcrekey-%d", i)
+		if !run.WantCase(key) {
+			continue
+		}
+		r := run.Rand(key)
+		now := time.Now().UnixNano()
+		l := genLayout(r, genOpt{GC: true}, now)
+		if l.None {
+			continue
+		}
+		for k := range l.Entries { // a long-running sync: nothing has touched the bookkeeping for days
+			if l.Entries[k].Mtime != 0 {
+				l.Entries[k].Mtime = now - int64(staleDur) - int64(time.Hour) - int64(r.Intn(100000))*int64(time.Second)
+			}
+		}
+		oldCfg := startCfg{ID1: l.Old, ID2: l.Old2}
+		newCfg := startCfg{ID1: l.New, ID2: l.Old}
+		srcOld := newSource(oldCfg.ID1, oldCfg.ID2)
+		srcNew := newSource(newCfg.ID1, newCfg.ID2)
+		t := newTarget(l.build())
+		f := nextStart(srcOld, t.Addr(), oldCfg) // the running syncer
+		if f.Err != "" || f.Out == nil {
+			run.Inconclusive("%s: start of the running process failed: %s", key, f.Err)
+			srcOld.Close()
+			srcNew.Close()
+			t.Close()
+			continue
+		}
+		s0 := t.Snapshot()
+		tc := newTarget(s0)
+		p0 := nextStart(srcOld, tc.Addr(), oldCfg)
+		tc.Close()
+		// the source the GC tick talks to: answers its first INFO replication with the old ids and
+		// fails over right then (the re-key happens while that reply is in flight)
+		oldBody := []byte(fmt.Sprintf("# Replication\r\nrole:master\r\nconnected_slaves:0\r\nmaster_failover_state:no-failover\r\n"+
+			"master_replid:%s\r\nmaster_replid2:%s\r\nmaster_repl_offset:0\r\nsecond_repl_offset:-1\r\n\r\n", oldCfg.ID1, oldCfg.ID2))
+		newBody := []byte(fmt.Sprintf("# Replication\r\nrole:master\r\nconnected_slaves:0\r\nmaster_failover_state:no-failover\r\n"+
+			"master_replid:%s\r\nmaster_replid2:%s\r\nmaster_repl_offset:0\r\nsecond_repl_offset:-1\r\n\r\n", newCfg.ID1, newCfg.ID2))
+		src := fakeredis.MustStart(fakeredis.Options{})
+		var rekeyErr error
+		rekeyed := false
+		// topology discovery asks INFO too, and the tick asks every input node (masters, then
+		// replicas — the same address again): the fail-over waits for the LAST question of the tick.
+		// A dry tick against a copy of the target counts them.
+		var armed atomic.Bool
+		var asked, lastQuestion atomic.Int64
+		src.SetHooks(nil, func(q *fakeredis.Req) (fakeredis.Reply, bool) {
+			if q.Cmd != "INFO" || len(q.Args) != 1 || !strings.EqualFold(string(q.Args[0]), "replication") {
+				return nil, false
+			}
+			if rekeyed {
+				return newBody, true
+			}
+			if !armed.Load() {
+				return oldBody, true
+			}
+			if asked.Add(1) < lastQuestion.Load() {
+				return oldBody, true
+			}
+			rekeyed = true
+			rekeyErr = f.Out.SetRunId(ctx, l.New) // talks to the target double only
+			return oldBody, true
+		}, nil)
+		seq0 := t.Seq()
+		if err := setGcEndpoints(src.Addr(), t.Addr()); err != nil {
+			run.Inconclusive("%s: %v", key, err)
+		} else {
+			dry := newTarget(s0)
+			_ = setGcEndpoints(src.Addr(), dry.Addr())
+			lastQuestion.Store(1 << 40)
+			armed.Store(true)
+			cmd.NewSyncerCmd().VerifGcStaleCheckpoint(ctx)
+			armed.Store(false)
+			dry.Close()
+			lastQuestion.Store(asked.Load())
+			asked.Store(0)
+			if err := setGcEndpoints(src.Addr(), t.Addr()); err != nil {
+				run.Inconclusive("%s: %v", key, err)
+			}
+			armed.Store(true)
+			cmd.NewSyncerCmd().VerifGcStaleCheckpoint(ctx)
+			lg := capture("gc-overlaps-rekey", s0, t, seq0)
+			after := t.Snapshot()
+			switch {
+			case !rekeyed:
+				run.Inconclusive("%s: the GC tick never asked the source for its ids", key)
+			case rekeyErr != nil:
+				run.Inconclusive("%s: re-key failed: %v", key, rekeyErr)
+			case p0.Err != "":
+				run.Inconclusive("%s: before-measurement failed: %s", key, p0.Err)
+			default:
+				tn := newTarget(after)
+				g := nextStart(srcNew, tn.Addr(), newCfg)
+				tn.Close()
+				run.Eval(1)
+				run.Count("gc_ticks_overlapping_a_rekey", 1)
+				clause, outcome := judge(p0, g)
+				run.Distinct(fmt.Sprintf("gc-overlaps-rekey|%s|%s", l.class(p0), outcome))
+				if clause != "" && clause != "next-start-refused" {
+					run.Violation("gc-overlaps-rekey|"+clause, key,
+						fmt.Sprintf("the GC tick read the source's ids, the source failed over and the position was re-keyed, the tick went on: the next start finds %s; before a start found %s", g, p0),
+						map[string]any{"layout_class": l.class(p0), "initial_state": l.describe(), "initial_bookkeeping": bookDump(s0), "requests_rekey_and_gc": reqDump(lg.Reqs),
+							"state_after": bookDump(after), "old_config": oldCfg, "new_config": newCfg})
+				}
+			}
+		}
+		src.Close()
+		srcOld.Close()
+		srcNew.Close()
+		t.Close()
+	}
 }
 
 // gcNewestSurvives: for every id the source still reports, an entry with the largest offset
